@@ -70,17 +70,22 @@ class GroupingService:
         # Create a mask for rows where the value is different from the previous row.
         # The comparison is null-aware: null is a value of its own, equal to null
         # and different from every non-null value.
-        is_first_occurrence = df[column].ne_missing(df[column].shift(1)) | (
-            pl.int_range(df.height) == 0
+        # The column is addressed by position: a name such as "*" or "^.*$" is
+        # read as a selector by polars expressions and must stay a plain name.
+        index = df.get_column_index(column)
+        value = pl.nth(index)
+        is_first_occurrence = value.ne_missing(value.shift(1)) | (
+            pl.int_range(pl.len()) == 0
         )  # First row is always shown
 
         # Create suppressed column by setting duplicates to null
-        suppressed_values = (
-            pl.when(is_first_occurrence).then(df[column]).otherwise(None)
-        )
+        suppressed_values = df.select(
+            pl.when(is_first_occurrence).then(value).otherwise(None)
+        ).to_series()
 
         # Replace the original column with suppressed version
-        result_df = df.with_columns(suppressed_values.alias(column))
+        result_df = df.clone()
+        result_df.replace_column(index, suppressed_values.alias(column))
 
         return result_df
 
@@ -116,13 +121,16 @@ class GroupingService:
 
             # Higher-level columns changed condition (null-aware: null is a
             # value of its own, different from every non-null value)
+            # Columns are addressed by position: a name such as "*" or "^.*$" is
+            # read as a selector by polars expressions.
             for higher_col in group_by[:i]:
-                conditions.append(
-                    pl.col(higher_col).ne_missing(pl.col(higher_col).shift(1))
-                )
+                higher = pl.nth(df.get_column_index(higher_col))
+                conditions.append(higher.ne_missing(higher.shift(1)))
 
             # This column changed condition
-            conditions.append(pl.col(column).ne_missing(pl.col(column).shift(1)))
+            index = df.get_column_index(column)
+            value = pl.nth(index)
+            conditions.append(value.ne_missing(value.shift(1)))
 
             # Combine all conditions with OR
             should_show = conditions[0]
@@ -132,12 +140,10 @@ class GroupingService:
             # Apply suppression. The conditions are evaluated on the original
             # values (df): a level must not see the blanks already written into
             # the higher-level columns of result_df.
-            suppressed_values = (
-                pl.when(should_show).then(pl.col(column)).otherwise(None)
-            )
-            result_df = result_df.with_columns(
-                df.select(suppressed_values.alias(column)).to_series()
-            )
+            suppressed_values = df.select(
+                pl.when(should_show).then(value).otherwise(None)
+            ).to_series()
+            result_df.replace_column(index, suppressed_values.alias(column))
 
         return result_df
 
@@ -174,19 +180,22 @@ class GroupingService:
                 # Create updates for each group column
                 for col in group_by:
                     # Get the original value for this row
-                    original_value = original_df[col][page_start_idx]
+                    original_value = original_df.get_column(col)[page_start_idx]
 
                     # Update the result DataFrame at this position
                     # Create a mask for this specific row
-                    mask = pl.int_range(len(result_df)) == page_start_idx
+                    mask = pl.int_range(pl.len()) == page_start_idx
 
-                    # Update the column value where the mask is true
-                    result_df = result_df.with_columns(
+                    # Update the column value where the mask is true (the
+                    # column is addressed by position: its name may read as a
+                    # polars selector)
+                    index = result_df.get_column_index(col)
+                    restored = result_df.select(
                         pl.when(mask)
                         .then(pl.lit(original_value))
-                        .otherwise(pl.col(col))
-                        .alias(col)
-                    )
+                        .otherwise(pl.nth(index))
+                    ).to_series()
+                    result_df.replace_column(index, restored.alias(col))
 
         return result_df
 
@@ -352,7 +361,9 @@ class GroupingService:
                 # the tuple of the row's values. Tuples keep null (None) apart from
                 # every string and cannot collide the way joined strings can
                 # ("a|b", "c") vs ("a", "b|c").
-                group_keys = df.select(group_cols).rows()
+                group_keys = df.select(
+                    [pl.nth(df.get_column_index(col)) for col in group_cols]
+                ).rows()
                 current_key = group_keys[0]
                 seen_keys = {current_key}
 
